@@ -148,6 +148,10 @@ def run(ck):
         tp = [x for x in pattern_templates(fn) if "%1" in x[0]]
         if len(tp) != 2:
             continue
+        if fn is not gnf and not all(x[0].startswith("^") and x[0].endswith("$") for x in tp):
+            # the pattern is assembled piecewise (e.g. `if (!suffix.isEmpty()) pattern += ...`): both variants were already
+            # recovered by the abstract string evaluation and compared with the writer above
+            continue
         sfx = [v for n in fn.find(lambda n: n.get("k") == "decl") for v in n.get("vars", []) if isinstance(v.get("init"), dict) and is_call(v["init"], "QFileInfo::suffix")]
         if len(sfx) != 1:
             ck.ob("C09-O3", sitestr(fn), None, "%s: suffix local not found" % nm)
@@ -316,41 +320,73 @@ def next_index(ck, S, RULE):
         ok0 = const_int(locs[mdecl].get("init")) == 0
         ck.ob(RULE, sitestr(fi), ok0, "the maximum starts at 0 (first index is 1)", key="findNextIndexForDate|start")
         ups = [n for n in fi.find(lambda n: n.get("k") == "binop" and n.get("op") == "=" and is_ref_to(n.get("lhs"), mdecl))]
-        loop = [l for l in find_loops(fi) if l.get("k") == "rangefor"]
-        okm = False
-        detail = "%d updates, %d loops" % (len(ups), len(loop))
-        if len(ups) == 1 and len(loop) == 1:
+        loops_all = find_loops(fi)
+        okm = None
+        detail = "%d updates, %d loops" % (len(ups), len(loops_all))
+        loop = [l for l in loops_all if ups and any(a.get("id") == l["id"] for a in fi.ancestors(ups[0]))]
+        hm = [x for x in fi.calls("QRegularExpressionMatch::hasMatch")]
+        if len(ups) == 1 and len(loop) >= 1 and len(hm) == 1:
             u = ups[0]
-            idxv = skip_copies(u.get("rhs"))
-            isrc = deref_local(fi, idxv)
-            cap = [x for x in walk(isrc) if is_call(x, "QRegularExpressionMatch::captured")]
-            numeric = any(is_call(x, ("QString::toInt", "QString::toLongLong", "QString::toUInt")) for x in walk(isrc))
-            # guard: index > max ; reached for every matching entry
+            lp = loop[0]
+            rhs = skip_copies(u.get("rhs"))
             us = gf.site_of(u)
-            hm = [x for x in fi.calls("QRegularExpressionMatch::hasMatch")]
-            cond = gf.site_of(loop[0]["desugar"]["cond"])
-            gt = None
-            for c in comparisons_in(fi.body):
-                cf = comparison_form(c, lambda n: "idx" if (idxv.get("k") == "ref" and is_ref_to(n, idxv.get("decl"))) else ("max" if is_ref_to(n, mdecl) else None))
-                if cf and cf[0].get("idx") == 1 and cf[0].get("max") == -1:
-                    gt = (c, cf)
-            if gt is not None and len(hm) == 1 and cap and numeric:
-                c, (f, op) = gt
-                keep_t = gf.projector(atoms((value_pred(fi, hm[0]), True), (lambda n: n.get("id") == c["id"], True)))
-                keep_f = gf.projector(atoms((value_pred(fi, hm[0]), True), (lambda n: n.get("id") == c["id"], False)))
-                hs = gf.site_of(hm[0])
-                a = gf.postdominated(hs, {us}, keep=keep_t) and us not in gf.reach([hs], blocked={cond}, keep=keep_f, include_start=False)
-                b = all(gf.postdominated(hs, {cond}, keep=kp) for kp in (keep_t, keep_f, gf.projector(atom_eq(value_pred(fi, hm[0]), False))))
-                strict = f.get("", 0) in (-1, 0) and op == ">="
-                from rules.c06 import regex_patterns
-                idx_groups = set()
-                for t, _a, _n in regex_patterns(F, fi):
-                    for gi_, (content, _pos) in enumerate(regex_groups(t)):
-                        if content == "\\d+":
-                            idx_groups.add(gi_ + 1)
-                okm = a and b and strict and len(idx_groups) == 1 and const_int(cap[0]["args"][0]) in idx_groups
-                detail = "update-iff-greater=%s, every entry visited=%s, comparison %s" % (a, b, describe(c))
-        ck.ob(RULE, sitestr(fi), okm, "running maximum of the numeric captured index over every matching entry (no early exit)" if okm else "maximum computation not recognised/incorrect: %s" % detail,
+            hs = gf.site_of(hm[0])
+            # loop head: the element at which every iteration starts again
+            head_node = lp["desugar"]["cond"] if lp.get("k") == "rangefor" else lp.get("cond")
+            cond = gf.site_of(head_node) if isinstance(head_node, dict) else None
+            # the candidate value: captured(<index group>).toInt(), directly or through a local
+            def is_idx(x):
+                x = deref_local(fi, x)
+                return any(is_call(y, "QRegularExpressionMatch::captured") for y in walk(x)) and any(is_call(y, ("QString::toInt", "QString::toLongLong", "QString::toUInt")) for y in walk(x))
+            cap = [x for x in walk(fi.body) if is_call(x, "QRegularExpressionMatch::captured")]
+            from rules.c06 import regex_patterns
+            idx_groups = set()
+            for t, _a, _n in regex_patterns(F, fi):
+                for gi_, (content, _pos) in enumerate(regex_groups(t)):
+                    if content == "\\d+":
+                        idx_groups.add(gi_ + 1)
+            okgroup = bool(cap) and len(idx_groups) == 1 and all(const_int(c["args"][0]) in idx_groups for c in cap if c.get("args"))
+            form = None
+            strict = True
+            if is_call(rhs, ("qMax", "std::max", "max")) and len(rhs.get("args", [])) == 2:
+                a0, a1 = rhs["args"]
+                if (is_ref_to(a0, mdecl) and is_idx(a1)) or (is_ref_to(a1, mdecl) and is_idx(a0)):
+                    form = "max"
+            elif is_idx(rhs):
+                idxv = rhs
+                gt = None
+                for c in comparisons_in(fi.body):
+                    cf = comparison_form(c, lambda n: "idx" if ((idxv.get("k") == "ref" and is_ref_to(n, idxv.get("decl"))) or (idxv.get("k") != "ref" and describe(skip_copies(n)) == describe(idxv))) else ("max" if is_ref_to(n, mdecl) else None))
+                    if cf and cf[0].get("idx") == 1 and cf[0].get("max") == -1:
+                        gt = (c, cf)
+                    elif cf and cf[0].get("idx") == -1 and cf[0].get("max") == 1:
+                        gt = (c, (cf[0], "wrong-direction"))
+                if gt is not None:
+                    c, (f, op) = gt
+                    if op == "wrong-direction":
+                        form = "wrong"
+                    else:
+                        form = "guarded"
+                        strict = f.get("", 0) in (-1, 0) and op == ">="
+                        keep_t = gf.projector(atoms((value_pred(fi, hm[0]), True), (lambda n: n.get("id") == c["id"], True)))
+                        keep_f = gf.projector(atoms((value_pred(fi, hm[0]), True), (lambda n: n.get("id") == c["id"], False)))
+                        upd_iff = gf.postdominated(hs, {us}, keep=keep_t) and (cond is None or us not in gf.reach([hs], blocked={cond}, keep=keep_f, include_start=False))
+                        if not upd_iff:
+                            form = "guard-mismatch"
+            if form == "max":
+                keep_m = gf.projector(atom_eq(value_pred(fi, hm[0]), True))
+                upd_iff = gf.postdominated(hs, {us}, keep=keep_m)
+                if not upd_iff:
+                    form = "guard-mismatch"
+            # every entry is visited: no break / return inside the loop
+            exits = [x for x in walk(lp.get("body")) if x.get("k") in ("break", "return")]
+            visited = not exits and (cond is None or all(gf.postdominated(hs, {cond}, keep=kp) for kp in (gf.projector(atom_eq(value_pred(fi, hm[0]), True)), gf.projector(atom_eq(value_pred(fi, hm[0]), False)))))
+            detail = "form=%s, every entry visited=%s, index group ok=%s" % (form, visited, okgroup)
+            if form in ("max", "guarded") and visited and strict and okgroup:
+                okm = True
+            elif form in ("wrong", "guard-mismatch") or exits or (form in ("max", "guarded") and not okgroup and cap and idx_groups):
+                okm = False
+        ck.ob(RULE, sitestr(fi), okm, "running maximum of the numeric captured index over every matching entry (no early exit)" if okm else "maximum computation %s: %s" % ("incorrect" if okm is False else "not recognised", detail),
               key="findNextIndexForDate|maximum")
 
 
